@@ -290,10 +290,20 @@ func parseGen(g *G, tier string) []M {
 				all = append(all, fk{p, k})
 			}
 		}
-		// quick: a random sample of the single faults; thorough: all of them
+		// quick: a random sample of the single faults; thorough: all of them. The faults at the
+		// members of the top-level object of the hand-made documents are always kept: that is where
+		// the document-wide values live (namespace, serial number, versions, creation info)
 		if len(all) > per {
 			g.R.Shuffle(len(all), func(i, j int) { all[i], all[j] = all[j], all[i] })
-			all = all[:per]
+			keep := all[:per]
+			if strings.HasPrefix(src, "rich-") {
+				for _, f := range all[per:] {
+					if len(f.p) == 1 {
+						keep = append(keep, f)
+					}
+				}
+			}
+			all = keep
 		}
 		for _, f := range all {
 			ft := t.ApplyFault(f.p, f.k)
